@@ -231,7 +231,10 @@ UNSUPPORTED = ["em", "ex", "ch", "rem", "vw", "vh", "vmin", "vmax", "deg", "rad"
                "px2", "mmm"]
 NONNUMERIC = ["", " ", "px", "mm", "in", "%", "Q", "e5", "e5mm", "--1", "++2mm", "+-3", "1..2", "1.2.3in",
               ".", ".px", "-", "-pt", "+", "abc", "auto", "none", "ten mm", "mm5", "px10", "%50", "1e", "1e+",
-              "1e-px", "1,5mm", "#12", "1/2in", "0x10", "5**2", "(5)"]
+              "1e-px", "1,5mm", "#12", "1/2in", "0x10", "5**2", "(5)",
+              # characters str.isdigit()/isnumeric() accept but that are not decimal digits (float() rejects them)
+              "\u00b2", "10\u00b2", "\u2460", "\u00bd", "5\u00bdmm", "\u2075px", "1\u2070in", "\u2082", "\u2163",
+              "3\u00b3cm", "\u3007", "\u2152"]
 
 
 @st.composite
